@@ -89,6 +89,10 @@ type Exec struct {
 	blocked      int
 	envStack     []VFunc
 	envRunning   bool
+	idleTicks    int
+	coros        []*coro
+	curCoro      *coro
+	progress     int
 	initStored   map[*ssa.Global]bool
 	initDone     map[*ssa.Global]bool
 	poisoned     map[*ssa.Global]string
@@ -159,7 +163,8 @@ func (e *Exec) runPath(fn *ssa.Function, prefix []bool) {
 	e.encMemo = map[string]Value{}
 	e.hashApps = nil
 	e.nondet = 0
-	e.envStack, e.envRunning = nil, false
+	e.envStack, e.envRunning, e.idleTicks = nil, false, 0
+	e.coros, e.curCoro, e.progress = nil, nil, 0
 	e.sol.Push()
 	defer e.sol.Pop()
 	e.paths++
@@ -551,10 +556,9 @@ func (e *Exec) runFrame(fr *frame, args []Value) Value {
 			case *ssa.Send:
 				ch := e.val(fr, in.Chan).(VChan)
 				for !e.chanSendReady(ch.C) {
-					if !e.envStep() {
-						panic(pathEnd{"BLOCKED on send in " + fn.String()})
-					}
+					e.blockedStep("on send in " + fn.String())
 				}
+				e.progress++
 				ch.C.Q = append(ch.C.Q, e.val(fr, in.X))
 			case *ssa.Go:
 				// sequential mode: record, do not run
@@ -999,10 +1003,9 @@ func (e *Exec) unop(fr *frame, in *ssa.UnOp) Value {
 	case token.ARROW:
 		ch := x.(VChan)
 		for !e.chanRecvReady(ch.C) {
-			if !e.envStep() {
-				panic(pathEnd{"BLOCKED on receive in " + fr.fn.String()})
-			}
+			e.blockedStep("on receive in " + fr.fn.String())
 		}
+		e.progress++
 		v, ok := e.chanRecv(ch.C)
 		if in.CommaOk {
 			return VTuple{[]Value{v, VBool{BoolC(ok)}}}
